@@ -70,4 +70,33 @@ theorem Adjacent.imp {α : Type} {R S : α → α → Prop} (h : ∀ a b, R a b 
   | [_], _ => trivial
   | a :: b :: l, hl => ⟨h a b hl.1, Adjacent.imp h (b :: l) hl.2⟩
 
+/-- a property of all members may be added to the neighbour relation -/
+theorem Adjacent.and_mem {α : Type} {R : α → α → Prop} {P : α → Prop} :
+    ∀ l : List α, (∀ a ∈ l, P a) → Adjacent R l → Adjacent (fun a b => P a ∧ P b ∧ R a b) l
+  | [], _, _ => trivial
+  | [_], _, _ => trivial
+  | a :: b :: l, hP, hl =>
+    ⟨⟨hP a (by simp), hP b (by simp), hl.1⟩,
+      Adjacent.and_mem (b :: l) (fun c hc => hP c (List.mem_cons_of_mem _ hc)) hl.2⟩
+
+theorem Val.norm_rank (v : Val) : v.norm.rank = v.rank := by
+  cases v <;> simp [Val.norm, Val.rank]
+
+/-- every comparison starts with the type rank -/
+theorem cmp_rank (a b : Val) : cmp a b = (compare a.rank b.rank).then (cmp a b) := by
+  have h := cmpN_rank a.norm b.norm
+  rw [Val.norm_rank, Val.norm_rank] at h
+  exact h
+
+theorem cmp_rank_le (a b : Val) (h : (cmp a b).isLE = true) : a.rank ≤ b.rank := by
+  rw [cmp_rank] at h
+  rcases Nat.lt_trichotomy a.rank b.rank with h1 | h1 | h1
+  · omega
+  · omega
+  · have : compare a.rank b.rank = .gt := Nat.compare_eq_gt.2 h1
+    rw [this] at h; simp [Ordering.then] at h
+
+theorem cmp_of_rank_lt (a b : Val) (h : a.rank < b.rank) : cmp a b = .lt := by
+  rw [cmp_rank, Nat.compare_eq_lt.2 h]; rfl
+
 end Pyg
